@@ -11,6 +11,7 @@ replace github.com/gobuffalo/pop/v6 => github.com/ory/pop/v6 v6.2.1-0.2024112111
 require (
 	github.com/anishathalye/porcupine v1.3.0
 	github.com/gofrs/uuid v4.4.0+incompatible
+	github.com/julienschmidt/httprouter v1.3.0
 	github.com/mattn/go-sqlite3 v1.14.24
 	github.com/ory/keto v0.0.0
 	github.com/ory/keto/proto v0.13.0-alpha.0
@@ -88,7 +89,6 @@ require (
 	github.com/jmoiron/sqlx v1.4.0 // indirect
 	github.com/joho/godotenv v1.5.1 // indirect
 	github.com/josharian/intern v1.0.0 // indirect
-	github.com/julienschmidt/httprouter v1.3.0 // indirect
 	github.com/kballard/go-shellquote v0.0.0-20180428030007-95032a82bc51 // indirect
 	github.com/klauspost/compress v1.18.0 // indirect
 	github.com/knadh/koanf/maps v0.1.1 // indirect
